@@ -2794,10 +2794,20 @@ def min_min(tr, e, env, k):
     return tr.hoist(e, f"min_min {env['self.min_tree'][0]}", "T", k)
 
 
-PER_FIELDS = [("max_size", "Z"), ("sum_tree", STREE_T), ("min_tree", MTREE_T), ("max_priority", "T")]
+def is_self_size(e, env):
+    return isinstance(e, ast.Attribute) and ast.unparse(e) == "self.size" and "self._parent" in env
+
+
+def self_size(tr, e, env, k):
+    """self.size: a property of the ReplayBuffer part of the object (return self._size) — read from the CURRENT abstract
+    parent state, so that it is the size after super().add(data) inside add"""
+    return k(f"par_size {env['self._parent'][0]}", "Z")
+
+
+PER_FIELDS = [("max_size", "Z"), ("sum_tree", STREE_T), ("min_tree", MTREE_T), ("max_priority", "T"), ("_parent", PAR_T)]
 PER_WRITES = ["sum_tree", "min_tree", "max_priority"]
 PER_VARS = ["powa", "powb", "sum_set", "min_set", "sum_total", "sum_retrieve", "sum_get", "min_min", "c_mul_z", "c_div_z",
-            "parent_add", "td_rows"]
+            "parent_add", "td_rows", "par_size"]
 _pa = pow_of("self.alpha", "powa")
 
 CLIENTS["C11"].imports += ("\n(* torch.zeros(n, dtype=torch.int64) as a list *)\n"
@@ -2816,16 +2826,17 @@ CLIENTS["C11"].units.append(Unit(
              "Variable sum_retrieve : STree -> C -> res Z.        (* self.sum_tree.retrieve(x): asserts 0 <= x <= sum + 1e-5 *)\n"
              "Variables (c_mul_z c_div_z : C -> Z -> C).          (* python float (op) python int *)\n"
              "Variable parent_add : Par -> Td -> Par.             (* super().add(data): ReplayBuffer.add *)\n"
-             "Variable td_rows : Td -> Z.                         (* data.shape[0] *)"),
+             "Variable td_rows : Td -> Z.                         (* data.shape[0] *)\n"
+             "Variable par_size : Par -> Z.                       (* self.size (property of the ReplayBuffer part) *)"),
     carrier=C11_CARRIER, variables=PER_VARS,
     mixed_ops={("T", "mul", "Z"): ("c_mul_z", "T"), ("T", "div", "Z"): ("c_div_z", "T")},
     item_set={(STREE_T, "Z", "T"): "sum_set", (MTREE_T, "Z", "T"): "min_set"},
     functions=[
         FnSpec(cls="PrioritizedReplayBuffer", name="_update_priority", coq="PER_update_priority",
-               fields=PER_FIELDS, writes=PER_WRITES, expr_matchers=[_pa],
+               fields=PER_FIELDS, writes=PER_WRITES, expr_matchers=[_pa, (is_self_size, self_size)],
                theorem="C11_translated_update_priority_is_model"),
         FnSpec(cls="PrioritizedReplayBuffer", name="add", coq="PER_add",
-               fields=PER_FIELDS + [("tree_ptr", "Z"), ("_parent", PAR_T)], writes=PER_WRITES + ["tree_ptr", "_parent"],
+               fields=PER_FIELDS + [("tree_ptr", "Z")], writes=PER_WRITES + ["tree_ptr", "_parent"],
                params={"data": TD_T}, expr_matchers=[(is_td_rows, td_rows)],
                stmt_shapes=[(is_super_add, per_super_add)], theorem="C11_translated_per_add_is_model"),
         FnSpec(cls="PrioritizedReplayBuffer", name="update_priorities", coq="PER_update_priorities",
